@@ -1,8 +1,341 @@
 //! Verification hook (compiled only with `--cfg quinn_rs_quinn_verif`).
+//!
+//! Component `header`: `Header::encode` + `PartialEncode::finish` (payload Length field) against
+//! `PartialDecode::new` (unprotected header, coalescing split) + `PartialDecode::finish` (packet number),
+//! with the identity function as header protection and no AEAD (plaintext headers).
+//!
+//! A header is described by integers (`lb(x)` = length-prefixed bytes; `pn_len` in 1..=4, `pn` the truncated
+//! packet number, i.e. the `PacketNumber::U8/U16/U24/U32` variant and its field):
+//! ```text
+//!   [0, version, lb(dcid), lb(scid), lb(token), pn_len, pn]     Initial
+//!   [1, ty, version, lb(dcid), lb(scid), pn_len, pn]            Long (ty 0 = Handshake, 1 = ZeroRtt)
+//!   [2, version, lb(dcid), lb(scid)]                            Retry
+//!   [3, spin, key_phase, lb(dcid), pn_len, pn]                  Short
+//!   [4, random, lb(dcid), lb(scid)]                             VersionNegotiate
+//! ```
+//! ops:
+//! ```text
+//!   [0, lb(payload), desc..]   `Header::encode`, append the payload, `PartialEncode::finish(buf, identity, None)`
+//!                              -> [0, header_len, packet bytes..] | [-1] bad description
+//!   [1, local_cid_len, grease, nver, versions.., bytes..]
+//!        `PartialDecode::new(bytes, FixedLengthConnectionIdParser(local_cid_len), versions, grease)`:
+//!        -> [1, e]                                       Err(InvalidHeader(e))
+//!         | [2, version, lb(dcid), lb(scid)]             Err(UnsupportedVersion)
+//!         | [3, e, packet_len, rest_len, length_field]   split ok, then `finish(identity)` failed with InvalidHeader(e)
+//!         | [0, packet_len, rest_len, length_field, header_len, payload_len, reserved_ok, desc..]
+//!        rest_len = -1 when no trailing data was split off; length_field = the decoded Length (-1 when the
+//!        header has none); header_len / payload_len = sizes of `Packet::header_data` / `Packet::payload`.
+//!        e: 1 fixed bit unset, 2 malformed cid, 3 token out of bounds, 4 unexpected end of packet,
+//!           5 packet too short to contain payload length, 6 packet too small (cid parser),
+//!           7 packet too short to extract header protection sample, 9 other
+//!   [2, local_cid_len, grease, nver, versions.., lb(payload), lb(trailing), desc..]
+//!        op 0 then op 1 on `packet ++ trailing` -> as op 1
+//! ```
 #![allow(missing_docs, dead_code, unused_imports, unreachable_pub, clippy::all)]
 use super::{Ops, Outs};
+use crate::{
+    ConnectionId,
+    crypto::HeaderKey,
+    packet::{
+        FixedLengthConnectionIdParser, Header, InitialHeader, LongType, PacketDecodeError, PacketNumber,
+        PartialDecode, ProtectedHeader,
+    },
+};
+use bytes::{Bytes, BytesMut};
+use std::io;
 
-/// Interpret `ops` for component `comp`; `None` if `comp` is not served by this module.
-pub(crate) fn run(_comp: &str, _ops: &Ops) -> Option<Outs> {
-    None
+struct Identity;
+impl HeaderKey for Identity {
+    fn decrypt(&self, _pn_offset: usize, _packet: &mut [u8]) {}
+    fn encrypt(&self, _pn_offset: usize, _packet: &mut [u8]) {}
+    fn sample_size(&self) -> usize {
+        0
+    }
+}
+
+struct Rd<'a> {
+    v: &'a [i128],
+    p: usize,
+}
+
+impl<'a> Rd<'a> {
+    fn int(&mut self) -> Option<i128> {
+        let x = *self.v.get(self.p)?;
+        self.p += 1;
+        Some(x)
+    }
+    fn lbytes(&mut self) -> Option<Vec<u8>> {
+        let n = self.int()?;
+        if n < 0 || self.v.len() - self.p < n as usize {
+            return None;
+        }
+        let b = self.v[self.p..self.p + n as usize].iter().map(|x| *x as u8).collect();
+        self.p += n as usize;
+        Some(b)
+    }
+    fn rest(&mut self) -> Vec<u8> {
+        let b = self.v[self.p..].iter().map(|x| *x as u8).collect();
+        self.p = self.v.len();
+        b
+    }
+    fn done(&self) -> bool {
+        self.p == self.v.len()
+    }
+}
+
+fn pn(r: &mut Rd<'_>) -> Option<PacketNumber> {
+    let len = r.int()?;
+    let v = r.int()?;
+    Some(match len {
+        1 => PacketNumber::U8(v as u8),
+        2 => PacketNumber::U16(v as u16),
+        3 => PacketNumber::U24(v as u32),
+        4 => PacketNumber::U32(v as u32),
+        _ => return None,
+    })
+}
+
+fn cid(r: &mut Rd<'_>) -> Option<ConnectionId> {
+    let b = r.lbytes()?;
+    if b.len() > crate::MAX_CID_SIZE {
+        return None;
+    }
+    Some(ConnectionId::new(&b))
+}
+
+fn header(r: &mut Rd<'_>) -> Option<Header> {
+    Some(match r.int()? {
+        0 => {
+            let version = r.int()? as u32;
+            Header::Initial(InitialHeader {
+                dst_cid: cid(r)?,
+                src_cid: cid(r)?,
+                token: r.lbytes()?.into(),
+                number: pn(r)?,
+                version,
+            })
+        }
+        1 => {
+            let ty = if r.int()? == 0 { LongType::Handshake } else { LongType::ZeroRtt };
+            let version = r.int()? as u32;
+            Header::Long {
+                ty,
+                version,
+                dst_cid: cid(r)?,
+                src_cid: cid(r)?,
+                number: pn(r)?,
+            }
+        }
+        2 => {
+            let version = r.int()? as u32;
+            Header::Retry {
+                version,
+                dst_cid: cid(r)?,
+                src_cid: cid(r)?,
+            }
+        }
+        3 => {
+            let spin = r.int()? != 0;
+            let key_phase = r.int()? != 0;
+            Header::Short {
+                spin,
+                key_phase,
+                dst_cid: cid(r)?,
+                number: pn(r)?,
+            }
+        }
+        4 => {
+            let random = r.int()? as u8;
+            Header::VersionNegotiate {
+                random,
+                dst_cid: cid(r)?,
+                src_cid: cid(r)?,
+            }
+        }
+        _ => return None,
+    })
+}
+
+/// `Header::encode`, payload, `PartialEncode::finish` -> (header_len, packet)
+fn encode(payload: &[u8], r: &mut Rd<'_>) -> Option<(usize, Vec<u8>)> {
+    let h = header(r)?;
+    if !r.done() {
+        return None;
+    }
+    let mut buf = Vec::new();
+    let pe = h.encode(&mut buf);
+    let header_len = pe.header_len;
+    buf.extend_from_slice(payload);
+    pe.finish(&mut buf, &Identity, None);
+    Some((header_len, buf))
+}
+
+fn err_code(m: &str) -> i128 {
+    match m {
+        "fixed bit unset" => 1,
+        "malformed cid" => 2,
+        "token out of bounds" => 3,
+        "unexpected end of packet" => 4,
+        "packet too short to contain payload length" => 5,
+        "packet too small" => 6,
+        "packet too short to extract header protection sample" => 7,
+        _ => 9,
+    }
+}
+
+fn push_lb(o: &mut Vec<i128>, b: &[u8]) {
+    o.push(b.len() as i128);
+    o.extend(b.iter().map(|x| *x as i128));
+}
+
+fn push_pn(o: &mut Vec<i128>, n: PacketNumber) {
+    o.push(n.len() as i128);
+    o.push(match n {
+        PacketNumber::U8(x) => x as i128,
+        PacketNumber::U16(x) => x as i128,
+        PacketNumber::U24(x) => x as i128,
+        PacketNumber::U32(x) => x as i128,
+    });
+}
+
+fn decode(lcl: usize, grease: bool, versions: &[u32], bytes: &[u8]) -> Vec<i128> {
+    let parser = FixedLengthConnectionIdParser::new(lcl);
+    let (pd, rest) = match PartialDecode::new(BytesMut::from(bytes), &parser, versions, grease) {
+        Ok(x) => x,
+        Err(PacketDecodeError::InvalidHeader(m)) => return vec![1, err_code(m)],
+        Err(PacketDecodeError::UnsupportedVersion {
+            src_cid,
+            dst_cid,
+            version,
+        }) => {
+            let mut o = vec![2, version as i128];
+            push_lb(&mut o, &dst_cid);
+            push_lb(&mut o, &src_cid);
+            return o;
+        }
+    };
+    let packet_len = pd.len() as i128;
+    let rest_len = rest.map_or(-1, |r| r.len() as i128);
+    let length_field = match ProtectedHeader::decode(&mut io::Cursor::new(bytes), &parser, versions, grease) {
+        Ok(ProtectedHeader::Initial(h)) => h.len as i128,
+        Ok(ProtectedHeader::Long { len, .. }) => len as i128,
+        _ => -1,
+    };
+    let packet = match pd.finish(Some(&Identity)) {
+        Ok(p) => p,
+        Err(PacketDecodeError::InvalidHeader(m)) => {
+            return vec![3, err_code(m), packet_len, rest_len, length_field];
+        }
+        Err(_) => return vec![3, 9, packet_len, rest_len, length_field],
+    };
+    let mut o = vec![
+        0,
+        packet_len,
+        rest_len,
+        length_field,
+        packet.header_data.len() as i128,
+        packet.payload.len() as i128,
+        packet.reserved_bits_valid() as i128,
+    ];
+    match packet.header {
+        Header::Initial(InitialHeader {
+            dst_cid,
+            src_cid,
+            token,
+            number,
+            version,
+        }) => {
+            o.extend([0, version as i128]);
+            push_lb(&mut o, &dst_cid);
+            push_lb(&mut o, &src_cid);
+            push_lb(&mut o, &token);
+            push_pn(&mut o, number);
+        }
+        Header::Long {
+            ty,
+            dst_cid,
+            src_cid,
+            number,
+            version,
+        } => {
+            o.extend([1, if ty == LongType::Handshake { 0 } else { 1 }, version as i128]);
+            push_lb(&mut o, &dst_cid);
+            push_lb(&mut o, &src_cid);
+            push_pn(&mut o, number);
+        }
+        Header::Retry {
+            dst_cid,
+            src_cid,
+            version,
+        } => {
+            o.extend([2, version as i128]);
+            push_lb(&mut o, &dst_cid);
+            push_lb(&mut o, &src_cid);
+        }
+        Header::Short {
+            spin,
+            key_phase,
+            dst_cid,
+            number,
+        } => {
+            o.extend([3, spin as i128, key_phase as i128]);
+            push_lb(&mut o, &dst_cid);
+            push_pn(&mut o, number);
+        }
+        Header::VersionNegotiate {
+            random,
+            src_cid,
+            dst_cid,
+        } => {
+            o.extend([4, random as i128]);
+            push_lb(&mut o, &dst_cid);
+            push_lb(&mut o, &src_cid);
+        }
+    }
+    o
+}
+
+fn decode_params(r: &mut Rd<'_>) -> Option<(usize, bool, Vec<u32>)> {
+    let lcl = r.int()? as usize;
+    let grease = r.int()? != 0;
+    let n = r.int()?;
+    let mut versions = Vec::new();
+    for _ in 0..n {
+        versions.push(r.int()? as u32);
+    }
+    Some((lcl, grease, versions))
+}
+
+fn one(op: &[i128]) -> Option<Vec<i128>> {
+    let mut r = Rd { v: op, p: 1 };
+    match op[0] {
+        0 => {
+            let payload = r.lbytes()?;
+            let (hl, b) = encode(&payload, &mut r)?;
+            let mut o = vec![0, hl as i128];
+            o.extend(b.iter().map(|x| *x as i128));
+            Some(o)
+        }
+        1 => {
+            let (lcl, grease, versions) = decode_params(&mut r)?;
+            let bytes = r.rest();
+            Some(decode(lcl, grease, &versions, &bytes))
+        }
+        2 => {
+            let (lcl, grease, versions) = decode_params(&mut r)?;
+            let payload = r.lbytes()?;
+            let trailing = r.lbytes()?;
+            let (_, mut b) = encode(&payload, &mut r)?;
+            b.extend_from_slice(&trailing);
+            Some(decode(lcl, grease, &versions, &b))
+        }
+        _ => None,
+    }
+}
+
+pub(crate) fn run(comp: &str, ops: &Ops) -> Option<Outs> {
+    match comp {
+        "header" => Some(ops.iter().map(|op| one(op).unwrap_or(vec![-1])).collect()),
+        _ => None,
+    }
 }
